@@ -64,7 +64,7 @@ enum { ACT_NONE, ACT_UNREG_SELF, ACT_UNREG_OTHER, ACT_UNREG_INSTANCE, ACT_UNREG_
 
 static struct {
 	uint64_t cases, reads, events_parsed, deliveries_checked, multi_event_reads, named_events, unreg_self, unreg_other, unreg_instance,
-		 oneshot_drops, ignored_drops, suppressed, never_read_instances, max_events_in_read, kernel_set_checks, refused_registrations;
+		 oneshot_drops, ignored_drops, suppressed, never_read_instances, max_events_in_read, kernel_set_checks, refused_registrations, oneshot_only_instances, term_checks;
 } S;
 
 void hk_inotify_init(int fd) { inot_fd = fd; }
@@ -261,7 +261,17 @@ static void check_deliveries(int final)
 	}
 }
 
-void hk_wait_enter(struct vt_wait *w) { (void)w; check_deliveries(0); }
+void hk_wait_enter(struct vt_wait *w)
+{
+	(void)w;
+	check_deliveries(0);
+	/* between two dispatches the instance must not keep a pointer into the (dead) stack frame of its dispatch function: a later
+	 * unregistration would store through it (the frame is larger than what AddressSanitizer's fake stack covers, so the store
+	 * itself cannot be observed) */
+	S.term_checks++;
+	if (inst_registered && inst != NULL && inst->term != NULL)
+		mon_viol("C20", "dispatch-state-left-behind", g_method, "the loop is about to poll and the instance still points (->term = %p) into the stack frame of a dispatch that has returned: unregistering it from here on writes to dead stack memory", (void *)inst->term);
+}
 
 static void ctl_cb(void *c)
 {
@@ -456,12 +466,24 @@ static void run_case(long id, uint64_t seed)
 				unreg_watch(i);
 		unreg_instance();
 	} else {
-		int nd = 1 + rng_n(&R, 3), nf = rng_n(&R, 5);
+		int nd = 1 + rng_n(&R, 3), nf = rng_n(&R, 5), os_only = 0;
+		if (rng_pct(&R, 12)) {
+			os_only = 1;
+			/* an instance whose only watches are one-shot: its watch set becomes empty in the middle of a dispatch */
+			nd = 0; nf = 0;
+			snprintf(p, sizeof(p), "%s/d%d", base, (int)rng_n(&R, 3));
+			add_watch(p, IN_ALL_EVENTS | IN_ONESHOT, 1);
+			if (rng_pct(&R, 40)) {
+				snprintf(p, sizeof(p), "%s/top%d", base, (int)rng_n(&R, 2));
+				add_watch(p, IN_ALL_EVENTS | IN_ONESHOT, 0);
+			}
+			S.oneshot_only_instances++;
+		}
 		for (i = 0; i < nd; i++) {
 			snprintf(p, sizeof(p), "%s/d%d", base, i);
 			add_watch(p, rng_pct(&R, 15) ? (IN_ALL_EVENTS | IN_ONESHOT) : rng_pct(&R, 70) ? IN_ALL_EVENTS : (IN_CREATE | IN_DELETE | IN_MOVE), 1);
 		}
-		if (rng_pct(&R, 60))
+		if (!os_only && rng_pct(&R, 60))
 			add_watch(base, IN_ALL_EVENTS, 1);
 		for (i = 0; i < nf; i++) {
 			snprintf(p, sizeof(p), "%s/d%d/f%d", base, (int)rng_n(&R, 3), (int)rng_n(&R, 6));
@@ -558,11 +580,11 @@ int main(int argc, char **argv)
 		run_case(i, seed);
 	mon_printf("STAT method=%s cases=%llu reads=%llu events_parsed=%llu deliveries_checked=%llu multi_event_reads=%llu named_events=%llu "
 		   "unregister_self=%llu unregister_other=%llu unregister_instance=%llu oneshot_drops=%llu ignored_drops=%llu suppressed_events=%llu "
-		   "never_read_instances=%llu refused_registrations=%llu kernel_watch_set_checks=%llu violations=%d\n", g_method, (unsigned long long)S.cases, (unsigned long long)S.reads,
+		   "never_read_instances=%llu one_shot_only_instances=%llu refused_registrations=%llu kernel_watch_set_checks=%llu violations=%d\n", g_method, (unsigned long long)S.cases, (unsigned long long)S.reads,
 		   (unsigned long long)S.events_parsed, (unsigned long long)S.deliveries_checked, (unsigned long long)S.multi_event_reads,
 		   (unsigned long long)S.named_events, (unsigned long long)S.unreg_self, (unsigned long long)S.unreg_other,
 		   (unsigned long long)S.unreg_instance, (unsigned long long)S.oneshot_drops, (unsigned long long)S.ignored_drops,
-		   (unsigned long long)S.suppressed, (unsigned long long)S.never_read_instances, (unsigned long long)S.refused_registrations, (unsigned long long)S.kernel_set_checks, mon_viol_total);
+		   (unsigned long long)S.suppressed, (unsigned long long)S.never_read_instances, (unsigned long long)S.oneshot_only_instances, (unsigned long long)S.refused_registrations, (unsigned long long)S.kernel_set_checks, mon_viol_total);
 	mon_printf("DONE\n");
 	return 0;
 }
